@@ -203,6 +203,7 @@ func condRules(c *Ctx, owners map[string]bool, floors map[string]int) {
 	R := c.R
 	p := c.P
 	R.Rule("W1", "every cond.Wait is inside a for loop (never an if), and the loop has an exit that depends on the waited-for state", floors["W1"])
+	R.Rule("W1c", "the condition of a wait loop is evaluated on current state: no local bound before the loop to a read of guarded state appears in it, except compared for identity with a fresh read of the same expression (change detection)", floors["W1c"])
 	R.Rule("W2", "before parking, every wait loop re-checks the owner's closed flag (containers) and selects on ctx.Done(), each leading to a return", floors["W2"])
 	R.Rule("W2b", "every function that parks starts a watcher goroutine that, when the context ends, notifies the same cond the function parks on, and cancels the derived context on return", floors["W2b"])
 	R.Rule("W3", "notify-after-write: for every state component read by a wait predicate and every function that writes it, every path from the write to the function's exit passes a notification of every cond whose waiters read that component", floors["W3"])
@@ -242,6 +243,48 @@ func condRules(c *Ctx, owners map[string]bool, floors map[string]int) {
 			})
 		}
 		R.Check(exitOK, "W1", at, pos, "Wait inside a for loop whose exit depends on "+fieldSet(w.Reads), "the loop around Wait has no exit that depends on the waited-for state: a satisfied predicate does not end the wait")
+
+		// W1c: the predicate is evaluated on the current state. A local bound before the loop to an expression
+		// that reads guarded state is a snapshot; it may appear in the loop condition only in the change-detection
+		// idiom `snap == <the same expression, read again>`.
+		if w.Loop.Cond != nil {
+			info := w.F.Info()
+			stale := ""
+			walkNoLit(w.Loop.Cond, func(x ast.Node) bool {
+				id, ok := x.(*ast.Ident)
+				if !ok || stale != "" {
+					return true
+				}
+				v, ok := info.Uses[id].(*types.Var)
+				if !ok || v.IsField() {
+					return true
+				}
+				if _, isParam := paramIndex(w.F.Root(), v); isParam {
+					return true
+				}
+				rhs := singleDef(w.F, v)
+				if rhs == nil || !(rhs.Pos() < w.Loop.Pos()) {
+					return true
+				}
+				rs := map[FieldID]bool{}
+				m.guardedReadsIn(w.F, rhs, rs, 0)
+				if len(rs) == 0 {
+					return true
+				}
+				if be, ok := p.Parent(id).(*ast.BinaryExpr); ok && (be.Op == token.EQL || be.Op == token.NEQ) {
+					other := be.X
+					if ast.Unparen(be.X) == ast.Expr(id) {
+						other = be.Y
+					}
+					if types.ExprString(ast.Unparen(other)) == types.ExprString(ast.Unparen(rhs)) {
+						return true
+					}
+				}
+				stale = fmt.Sprintf("the loop condition uses %s, bound before the loop to %s (%s): the predicate is decided on a snapshot, a change made while parked is not seen", id.Name, types.ExprString(rhs), fieldSet(rs))
+				return true
+			})
+			R.Check(stale == "", "W1c", at, pos, "the loop condition reads the guarded state anew on every iteration", stale)
+		}
 
 		// W2
 		ownerHasClosed := false
@@ -467,7 +510,11 @@ func (m *condModel) checkWatcher(w *waitSite, at, pos string) {
 			}
 			got := m.la.condFields(lf, recvExpr(call))
 			if supersetFields(got, w.Conds) {
-				found = true
+				if newFlow(root).Dominates(lf.Lit, w.Call) {
+					found = true
+				} else {
+					wrong = "the watcher goroutine is started on some paths to the Wait only (it is conditional); on the others neither a cancellation nor the waiter's own return (defer cancel → Broadcast, which is what passes the rest of a burst on after the single transition Signal, see W6) wakes anybody"
+				}
 			} else {
 				wrong = fmt.Sprintf("the watcher broadcasts %s but the function parks on %s", condNames(got), condNames(w.Conds))
 			}
